@@ -44,8 +44,12 @@ impl<'a> Parser<'a> {
         Ok(())
     }
     fn generate_ast(&mut self, oper_prec: OperatorCategory) -> Result<Node, ParseError> {
+        #[cfg(feature = "verif_hooks")]
+        crate::verif_hooks::tick();
         let mut left_expr = self.parse_number()?;
         while oper_prec < self.current_token.get_oper_prec() {
+            #[cfg(feature = "verif_hooks")]
+            crate::verif_hooks::tick();
             if self.current_token == Token::Eof {
                 break;
             }
@@ -55,10 +59,14 @@ impl<'a> Parser<'a> {
         Ok(left_expr)
     }
     fn function_static_arguments(&mut self, n: i32) -> Result<Vec<Node>, ParseError> {
+        #[cfg(feature = "verif_hooks")]
+        crate::verif_hooks::tick();
         self.get_next_token()?;
         self.check_paren(Token::LeftParen)?;
         let mut args = Vec::new();
         for i in 0..n {
+            #[cfg(feature = "verif_hooks")]
+            crate::verif_hooks::tick();
             let arg_expr = self.generate_ast(OperatorCategory::DefaultZero)?;
             args.push(arg_expr);
             if i < n - 1 {
@@ -81,10 +89,14 @@ impl<'a> Parser<'a> {
         end_token: Token,
         oper_prec: OperatorCategory,
     ) -> Result<Vec<Node>, ParseError> {
+        #[cfg(feature = "verif_hooks")]
+        crate::verif_hooks::tick();
         self.get_next_token()?;
         self.check_paren(start_token)?;
         let mut args = Vec::new();
         loop {
+            #[cfg(feature = "verif_hooks")]
+            crate::verif_hooks::tick();
             if args.is_empty() && (end_token == self.current_token) {
                 self.get_next_token()?;
                 break;
@@ -108,6 +120,8 @@ impl<'a> Parser<'a> {
         Ok(args)
     }
     fn parse_number(&mut self) -> Result<Node, ParseError> {
+        #[cfg(feature = "verif_hooks")]
+        crate::verif_hooks::tick();
         let token = self.current_token.clone();
         match token {
             Token::Ans => {
@@ -328,6 +342,8 @@ impl<'a> Parser<'a> {
         }
     }
     fn convert_token_to_node(&mut self, left_expr: Node) -> Result<Node, ParseError> {
+        #[cfg(feature = "verif_hooks")]
+        crate::verif_hooks::tick();
         match self.current_token.clone() {
             Token::Add => {
                 self.get_next_token()?;
